@@ -390,6 +390,7 @@ impl Check for C19 {
             if thorough { 3 } else { 2 },
             if thorough { 24 } else { 6 }
         );
+        ctx.rule.push_str("; values nested 1..24, 32, 40 and 64 containers deep; containers that contain themselves and strings that are not UTF-8 inside containers (a print is one whole rendering or nothing); all ordered pairs of 18 values: `==` answers true exactly when the two print identically");
         // ---- (1) configurations ----
         let root = subject::scratch_dir();
         std::fs::create_dir_all(root.join("d")).map_err(|e| MachineryError(e.to_string()))?;
